@@ -5,7 +5,7 @@ from . import lex, mon
 
 SPEC = {
     'rule': ('histories of 5-60 add_rule / delete_rule / add_dynamic_type / add_dynamic_type_item calls interleaved with evaluations, over a pool '
-             'of 14 rule specs (named NUMBER / TEXT / MONEY / PERCENT fields encoded into the returned number, two specs sharing a pattern, two '
+             'of 15 rule specs (named NUMBER / TEXT / MONEY / PERCENT fields encoded into the returned number, two specs sharing a pattern, two '
              'sharing a name, one declining, one for tr, one for an unknown language, one returning money, a word-group field and a Turkish operator word in patterns registered for tr) and 3 unit families (chains of 2-5 '
              'items with integer factors, duplicate family names and indices, an item for a missing family). Oracle: a model calculator '
              '(ordered surviving rules per language, families); return values and matching lines are judged against the model during the '
@@ -34,6 +34,8 @@ RULES = {
     'K': {'lang': 'tr', 'patterns': ['{GROUP:label:hour_group} {NUMBER:n}'], 'spec': {'name': 'r11', 'kind': 'encode', 'weights': {'n': 60}}},
     'L': {'lang': 'tr', 'patterns': ['{NUMBER:n} kere'], 'spec': {'name': 'r12', 'kind': 'encode', 'weights': {'n': 7}}},
     'N': {'lang': 'en', 'patterns': ['dozen'], 'spec': {'name': 'r13', 'kind': 'const', 'value': 12}},      # a one-word pattern (shorter than every built-in pattern)
+    'O': {'lang': 'en', 'patterns': ['mint {TEXT:coin}'], 'spec': {'name': 'r14', 'kind': 'encode', 'weights': {'coin': 100}, 'text_codes': {'btc': 1, 'eth': 2},
+                                                                 'decline_unknown_text': True}},     # declines unknown coins, accepts known ones
     'M': {'lang': 'en', 'patterns': ['{GROUP:label:hour_group} {NUMBER:n}'], 'spec': {'name': 'r11', 'kind': 'encode', 'weights': {'n': 61}}},
 }
 
@@ -62,6 +64,9 @@ def probes():
     out.append(('en', 'hours 5', '{GROUP:label:hour_group} {NUMBER:n}', {'n': 5}))
     out.append(('en', 'hour 9', '{GROUP:label:hour_group} {NUMBER:n}', {'n': 9}))
     out.append(('en', 'dozen', 'dozen', {}))
+    out.append(('en', 'mint btc', 'mint {TEXT:coin}', {'coin': 'btc'}))
+    out.append(('en', 'mint doge', 'mint {TEXT:coin}', {'coin': 'doge'}))
+    out.append(('en', 'mint ETH', 'mint {TEXT:coin}', {'coin': 'eth'}))
     return out
 
 
@@ -120,6 +125,8 @@ class Model:
             r = RULES[rid]
             if pattern in r['patterns'] and r['spec']['kind'] != 'decline':
                 sp = r['spec']
+                if sp.get('decline_unknown_text') and any(isinstance(fields.get(n), str) and fields[n] not in sp.get('text_codes', {}) for n in sp['weights']):
+                    continue          # this rule declines the match: the next rule in registration order is asked
                 if sp['kind'] == 'const':
                     return ('number', float(sp['value']))
                 if sp['kind'] == 'money':
@@ -242,7 +249,7 @@ def run_shard(ctx):
                 hist.append('add_rule %s' % rid)
             elif r < 0.45:
                 lang = rng.choice(['en', 'en', 'tr', 'xx'])
-                name = rng.choice(['r1', 'r2', 'r3', 'r5', 'r6', 'r8', 'r9', 'r10', 'r11', 'r12', 'r13', 'nope'])
+                name = rng.choice(['r1', 'r2', 'r3', 'r5', 'r6', 'r8', 'r9', 'r10', 'r11', 'r12', 'r13', 'r14', 'nope'])
                 want = model.delete_rule(lang, name)
                 ops.append({'op': 'delete_rule', 'lang': lang, 'name': name})
                 meta[len(ops) - 1] = ('ret', 'delete_rule(%s, %s)' % (lang, name), want)
